@@ -224,6 +224,14 @@ def _build(node, leaves):
         return ops.cat(tuple(B(x) for x in node[2]), node[1])
     if k == "align":
         return B(node[2]).align(tuple(node[1]))
+    if k == "delta":
+        from funsor.delta import Delta
+
+        return Delta(tuple((n, (B(pt), B(ld))) for n, pt, ld in node[1]))
+    if k == "const":
+        from funsor.constant import Constant
+
+        return Constant(OrderedDict((n, Reals[tuple(s_[1])] if isinstance(s_, (tuple, list)) else Bint[s_]) for n, s_ in node[1]), B(node[2]))
     if k == "integrate":
         from funsor.integrate import Integrate
 
